@@ -6,9 +6,21 @@ check("C18", "model_checking",
       "One record per transition (history reaching s, operation, expected result, expected observation of s') for element/key types int, str, "
       "(int, int) and (str, str) is replayed as a Sylt program through the real compiler and minilua: the result, len and every element are "
       "printed and compared, and every library result / resulting container is compared inside Sylt with the same value written in source. "
-      "Bounded-exhaustive over lists of length <=3, <=3 keys, ints -3..3 and half-steps in [-2,2]; thorough adds simulated 12-step behaviours.",
-      "Trusted: TLC, SyltStd as the reading of 'a plain model of those containers', the renderer c18 (operation -> Sylt call text, menu of lambdas), "
-      "minilua as stand-in for Lua 5.3. div/floor only where floor and truncation agree; iteration order of dicts/sets, for_each, dict.map/set.map and "
-      "random_choice are not exercised.",
-      "TLA+ container models, state-graph transition coverage (VIEW + per-transition records), replay into compiler + Lua interpreter",
-      "DESIGN.md 4 (P3), 5.9, 8/C18")
+      "Value semantics ACROSS containers (SyltShare, extends SyltStd): up to three registers; r1 is a list literal, Derive makes a new register "
+      "from an existing one (list.map, list.filter, copy by for_each + push, dict.from_list, set.from_list, dict.map, set.map, entries / elements "
+      "captured by a dict/set.for_each callback), Mutate changes exactly ONE register (push prepend pop set / update remove / add remove, writing a "
+      "mark value no literal contains), and after every step ALL registers are observed (len + every element / key lookup / membership): in the "
+      "model containers are values, so a mutation never shows through another container or through the tuples of the list it was made from, and "
+      "two containers made from the same list are independent (action constraint ShareSane); element/key types int and (int, int). "
+      "div and floor are read with FLOOR semantics on all operands: div(a, b) = floor(a / b) for a in -7..7, b in -3..3 without 0 (the remainder "
+      "a - b*div(a, b) has the sign of b), floor on every half-step in [-2, 2] incl. the negative ones. "
+      "Bounded-exhaustive over lists of length <=3, <=3 keys, ints -3..3 and half-steps in [-2,2]; SyltShare: literals of length <= 2 over 2 values, "
+      "<= 3 registers, <= 2 mutations, <= 3 steps after the literal (thorough: 4); thorough adds simulated 12-step behaviours of SyltStd.",
+      "Trusted: TLC, SyltStd / SyltShare as the reading of 'a plain model of those containers' (containers are values; div = floored division, the meaning "
+      "div has where it is distinguished from quot and what the library states with math.floor(a / b)), the renderer c18 (operation -> Sylt call text, "
+      "menu of lambdas), minilua as stand-in for Lua 5.3. div(a, 0), iteration order of dicts/sets (captured entries are observed as a bag: len + "
+      "contains), lists of lists (elements legitimately shared references) and random_choice are not exercised. Known findings: K6 ((str, str) keys "
+      "that print alike), K7 (set.map result carries the dict metatable: as_str / print of it fails).",
+      "TLA+ container models incl. a several-register model of value semantics, state-graph transition coverage (VIEW + per-transition records), "
+      "replay into compiler + Lua interpreter, stubbed-implementation negative control (copy rendered as alias must be rejected)",
+      "DESIGN.md 4 (P3), 5.9, 8/C18; docs/C18.md")
